@@ -161,6 +161,10 @@ namespace igris
             if (_curhist == history_size())
                 return 0;
 
+            // no older line has been entered yet
+            if (*history_pointer(_curhist + 1) == '\0')
+                return 0;
+
             _curhist++;
 
             load_history_line();
